@@ -89,6 +89,17 @@ Init ==
                  (IF so = "attr" THEN <<<<"stroke-opacity", Q(3, 4)>>>> ELSE <<>>), <<>>,
                  IF fo = "inline" THEN <<<<"fill-opacity", Q(3, 4)>>>> ELSE <<>>>>>>, E0, E0>>,
            <<>>, "black")
+  \/ \E ve \in {"none", "attr", "inline", "rule", "attr_none"}, gtf \in {0, 2, 7}, nested \in BOOLEAN, vb \in {1, 2}, shtf \in {0, 2} :
+        \* non-scaling stroke: only the enclosing viewport transforms scale the width
+        LET root == <<"svg", "", 0, FALSE, <<NoL, NoL, A(200), A(100), IF vb = 1 THEN <<I(0), I(0), I(100), I(50)>> ELSE <<I(0), I(0), I(50), I(25)>>, <<"xMidYMid", "">>>>, NoPaint>>
+            inner == <<"svg", "", 0, FALSE, <<A(5), A(5), A(60), A(30), <<I(0), I(0), I(20), I(10)>>, <<"xMidYMid", "">>>>, NoPaint>>
+            rect == <<"rect", "r", shtf, FALSE, RectGeo,
+                      <<<<<<"stroke", "red">>, <<"stroke-width", I(3)>>>> \o
+                          (IF ve = "attr" THEN <<<<"vector-effect", "non-scaling-stroke">>>> ELSE IF ve = "attr_none" THEN <<<<"vector-effect", "none">>>> ELSE <<>>),
+                        <<>>, IF ve = "inline" THEN <<<<"vector-effect", "non-scaling-stroke">>>> ELSE <<>>>>>>
+        IN Mk("vector",
+              <<root, <<"g", "", gtf, FALSE, <<>>, NoPaint>>>> \o (IF nested THEN <<inner>> ELSE <<>>) \o <<rect>> \o (IF nested THEN <<E0>> ELSE <<>>) \o <<E0, E0>>,
+              IF ve = "rule" THEN <<<<"id", "r", <<<<"vector-effect", "non-scaling-stroke">>>>>>>> ELSE <<>>, "black")
 Next == UNCHANGED vars
 
 \* ---- laws of the specification ---------------------------------------------
